@@ -102,6 +102,18 @@ Example c13_flat_selection_example :
 Proof. split; vm_compute; reflexivity. Qed.
 
 (* BEGIN PINS (tools/repin.py) *)
+(* expand_parserfns = False: an #if call (plain condition) is not evaluated but emitted as written - name, condition without
+   the blanks around it, the other arguments untouched (the calls in them are not expanded either), under every path *)
+Theorem c13_if_is_emitted_as_written_when_switched_off :
+  forall pfnames lib opts stk ea cond more,
+    (length stk < 100)%nat -> plain cond = true -> o_parserfns opts = false ->
+    exists F, forall fuel, (F <= fuel)%nat ->
+      expand_T pfnames lib opts fuel stk ea ((if_head ++ cond)%list :: more)
+      = Some (chars s_lbrace2 ++ chars [35; 105; 102]%N ++ [Ch 58] ++ join_i vbar (lstrip_i (rstrip_i cond) :: more)
+              ++ chars s_rbrace2)%list.
+Proof. exact if_switched_off. Qed.
+Print Assumptions c13_if_is_emitted_as_written_when_switched_off.
+
 From WTP Require Import Gen.GenPins.
 Module Pins.
 Import String.
